@@ -32,5 +32,15 @@ run|base)
     tail -25 /tmp/seed/out-$ID.txt; echo \"EXIT=\$rc\"
   "
   ;;
+sync)
+  # refresh the copies from the current HEADs (files that changed get a new mtime)
+  rm -rf $S/repo.new && mkdir -p $S/repo.new && git -C /repo archive HEAD | tar -x -C $S/repo.new
+  rsync -a --checksum --delete --exclude target $S/repo.new/ $S/repo/ && rm -rf $S/repo.new
+  rm -rf $S/verif.new && mkdir -p $S/verif.new && git -C /verif archive HEAD | tar -x -C $S/verif.new
+  rsync -a --checksum --exclude .build --exclude .lake $S/verif.new/ $S/verif/ && rm -rf $S/verif.new
+  find $S/repo $S/verif/harness $S/verif/lean -newer $S/.stamp -type f 2>/dev/null | head -0
+  touch $S/.stamp
+  echo synced
+  ;;
 clean) rm -rf $S ;;
 esac
